@@ -207,6 +207,13 @@ func (g *histGen) genCopyStmt() (*StmtProg, []pgwire.FMsg) {
 		ncols = 0 // no declared columns: COPY cannot be started (no CopyInResponse, the call fails)
 	}
 	sp := &StmtProg{Cols: genCols(r, ncols, baseOIDs)}
+	for i := range sp.Cols {
+		if r.Chance(1, 12) {
+			// types the connection's type map cannot decode (money, aclitem, regrole,
+			// an unknown OID): announced in the requested format like any other column
+			sp.Cols[i].OID = uint32(r.PickInt(790, 1033, 4096, 99999))
+		}
+	}
 	fmtc := int16(r.Intn(2))
 	sp.Ops = append(sp.Ops, Op{K: "copyin", Fmt: fmtc})
 	// client sequence
@@ -453,6 +460,14 @@ func (g *histGen) unit() {
 			if r.Bool() {
 				q += " " + r.Str(r.Intn(12))
 			}
+			if r.Chance(1, 10) {
+				// bytes that are not valid UTF-8 (a query text is a byte string)
+				q += " " + strings.ReplaceAll(string(r.Bytes(r.Range(1, 12))), "\x00", "\xff") + r.Pick("", "\xc3", "\xf0\x9f", "\x80")
+			}
+			if r.Chance(1, 12) && g.m.Limit >= 4096 {
+				// leading white space, also a lot of it: the query is not blank
+				q = strings.Repeat(r.Pick(" ", "\n", "\t "), r.PickInt(1, 255, 256, 257, 1000)) + q
+			}
 			g.add(pgwire.FMsg{K: "Q", S1: q})
 		}})
 	}
@@ -512,7 +527,14 @@ func (g *histGen) unit() {
 					prog.Stmts = []*StmtProg{g.genStmt(true)}
 				}
 				g.c.Programs[key] = prog
+				if r.Chance(1, 15) {
+					// an empty or blank query text is handed to the parser like any other
+					key = r.Pick("", " ", "  \n")
+				}
 				m := pgwire.FMsg{K: "P", S1: g.name(nil, "s"), S2: key}
+				if key != "" && strings.TrimSpace(key) != "" && r.Chance(1, 10) {
+					m.S2 += " " + strings.ReplaceAll(string(r.Bytes(r.Range(1, 12))), "\x00", "\xfe") + "\xe2\x82"
+				}
 				if r.Chance(1, 4) {
 					m.OIDs = []uint32{23, 25}[:r.Range(1, 2)] // pre-specified types the server does not read
 				}
@@ -715,6 +737,15 @@ func (g *histGen) unit() {
 				}
 			}})
 		}
+	}
+	if g.o.stray && g.o.copyForeign {
+		// (C13's histories only: hundreds of KiB of input are too much for the
+		// checks that replay a session under many segmentations or fault positions)
+		cs = append(cs, choice{1, func() {
+			// a long run of COPY messages outside COPY mode (a client that keeps
+			// streaming after its COPY failed): ignored to the last one
+			g.add(pgwire.FMsg{K: "flood", T: r.Pick("d", "d", "c", "f")[0], Data: r.Bytes(r.PickInt(0, 3, 40)), Rep: int64(r.PickInt(30, 1024, 1025, 1100, 5000))})
+		}})
 	}
 	if g.o.sizes {
 		cs = append(cs, choice{4, func() {
